@@ -21,6 +21,7 @@ import (
 
 	"github.com/ohler55/slip"
 	_ "github.com/ohler55/slip/pkg"
+	"github.com/ohler55/slip/pkg/swank"
 	"verif/sim/harness"
 	"verif/sim/simkit/tape"
 )
@@ -370,6 +371,13 @@ func capture(fn func() ([]slip.Object, int)) (o outcome) {
 						}
 					}
 				}
+			case wireError:
+				// ReadWireMessage reports every failure as an error value
+				if errors.Is(tr.error, errInjected) || strings.Contains(tr.Error(), errInjected.Error()) {
+					o = outcome{kind: "injected-error", err: tr}
+				} else {
+					o = outcome{kind: "condition", class: "wire-error"}
+				}
 			case error:
 				if errors.Is(tr, errInjected) {
 					o = outcome{kind: "injected-error", err: tr}
@@ -405,6 +413,8 @@ func sameObjects(a, b outcome) bool {
 	return true
 }
 
+type wireError struct{ error }
+
 type collector struct{ objs []slip.Object }
 
 func (c *collector) Call(s *slip.Scope, args slip.List, depth int) slip.Object {
@@ -412,7 +422,7 @@ func (c *collector) Call(s *slip.Scope, args slip.List, depth int) slip.Object {
 	return nil
 }
 
-var fronts = []string{"ReadStream", "ReadStreamOne", "ReadStreamEach", "ReadStreamPush", "cl:read-seek", "cl:read-all-seek", "cl:read-all-nonseek"}
+var fronts = []string{"ReadStream", "ReadStreamOne", "ReadStreamEach", "ReadStreamPush", "cl:read-seek", "cl:read-all-seek", "cl:read-all-nonseek", "swank:wire"}
 
 func scopeFor(c *Case) *slip.Scope {
 	s := slip.NewScope()
@@ -425,6 +435,15 @@ func scopeFor(c *Case) *slip.Scope {
 func reference(c *Case, front string) outcome {
 	s := scopeFor(c)
 	switch front {
+	case "swank:wire":
+		// the framed payload denotes its first object (nil if there is none)
+		return capture(func() ([]slip.Object, int) {
+			code := slip.Read(c.Text, s)
+			if len(code) == 0 {
+				return []slip.Object{nil}, 0
+			}
+			return []slip.Object{code[0]}, 0
+		})
 	case "ReadStreamOne", "cl:read-seek":
 		return capture(func() ([]slip.Object, int) {
 			code, pos := slip.ReadOne(c.Text, s)
@@ -461,6 +480,15 @@ func runFront(c *Case, front string, p Plan) (outcome, *source) {
 				objs = append(objs, o)
 			}
 			return objs, 0
+		case "swank:wire":
+			// "source text arriving in pieces" once more: a length-prefixed
+			// frame read from the simulated byte source
+			src.data = append([]byte(fmt.Sprintf("%06X", len(c.Text))), c.Text...)
+			obj, err := swank.ReadWireMessage(rd, s)
+			if err != nil {
+				panic(wireError{err})
+			}
+			return []slip.Object{obj}, 0
 		case "string:one-at-a-time":
 			// the third delivery named by the property: repeated one-form
 			// reads of the string, each from the reported end of the last
@@ -546,7 +574,7 @@ func judge(c *Case, front string, p Plan, ref, got outcome) *harness.Violation {
 	if got.kind == "go-panic" {
 		return viol("host-fault", "%s: stream read died with %s (string read: %s)", where, got.class, ref)
 	}
-	if strings.HasPrefix(front, "cl:") {
+	if strings.HasPrefix(front, "cl:") || front == "swank:wire" {
 		// Through the evaluator a Go-level PartialPanic arrives wrapped in an
 		// error condition, and a text without any object is an end-of-file
 		// condition for (read): "reported as not readable" is one class here.
